@@ -118,6 +118,43 @@ theorem mergeExport_total (fuel : Nat) (n : Str) (sk : ItemKind) (s0 : AggState)
         right
         refine ⟨(s!"mismatched type for export `{strS n}`" ++ ": " ++ m'), tf, ?_, hFn, fun h => by have := hiff.2 h.symm; cases this⟩
         simp only [run_bind, run_getAgg, withCtx, hm']
+    | type ty =>
+      cases ty with
+      | func f0 =>
+        simp only [run_bind, hr]
+        cases r with
+        | ok =>
+          left
+          simp only [run_bind, run_modifyAgg, run_pure, Bool.not_true, Bool.false_eq_true, ↓reduceIte]
+          exact ⟨_, rfl⟩
+        | err m0 =>
+          obtain ⟨m', hm'⟩ := hne (by simp)
+          right
+          refine ⟨(s!"mismatched type for export `{strS n}`" ++ ": " ++ m'), tf, ?_, hFn, fun h => by have := hiff.2 h.symm; cases this⟩
+          simp only [run_bind, run_getAgg, withCtx, hm']
+        | panic m0 =>
+          obtain ⟨m', hm'⟩ := hne (by simp)
+          right
+          refine ⟨(s!"mismatched type for export `{strS n}`" ++ ": " ++ m'), tf, ?_, hFn, fun h => by have := hiff.2 h.symm; cases this⟩
+          simp only [run_bind, run_getAgg, withCtx, hm']
+      | value v0 =>
+        simp only [run_bind, hr]
+        cases r with
+        | ok =>
+          left
+          simp only [run_bind, run_modifyAgg, run_pure, Bool.not_true, Bool.false_eq_true, ↓reduceIte]
+          exact ⟨_, rfl⟩
+        | err m0 =>
+          obtain ⟨m', hm'⟩ := hne (by simp)
+          right
+          refine ⟨(s!"mismatched type for export `{strS n}`" ++ ": " ++ m'), tf, ?_, hFn, fun h => by have := hiff.2 h.symm; cases this⟩
+          simp only [run_bind, run_getAgg, withCtx, hm']
+        | panic m0 =>
+          obtain ⟨m', hm'⟩ := hne (by simp)
+          right
+          refine ⟨(s!"mismatched type for export `{strS n}`" ++ ": " ++ m'), tf, ?_, hFn, fun h => by have := hiff.2 h.symm; cases this⟩
+          simp only [run_bind, run_getAgg, withCtx, hm']
+      | _ => cases ltk
     | _ => cases ltk
 
 /-- **`merge_interface` on flat interfaces is total**: with enough fuel it returns `Ok`, or an
